@@ -149,6 +149,24 @@ CHECKS["C15"] = dict(engine="dispx", level="exploration", design_ref="4/C15",
          "any finite run and is not claimed.",
     note=_DISPX_NOTE)
 
+CHECKS["C16"] = dict(engine="wire", level="exploration", design_ref="5/C16",
+    technique="runtime monitoring with a verifying peer: the real clients (full aiohttp/yarl stack, real sockets) call "
+              "a loopback aiohttp.web server that recomputes the HMAC from the raw request line, headers and body it "
+              "received; nonce set and bracketed timestamps",
+    text="Every signed / key-only endpoint of both clients at client, request-object and exchange level, thousands of "
+         "argument values incl. client ids over URL-special alphabets and decimals of any exponent. The oracle is the "
+         "exchange's own verification rule applied to received bytes, so no expected value is needed.",
+    note="Exchange-side verification rules are transcribed from the public API documentation (not fetchable here). "
+         + COMMON_NOTE)
+CHECKS["C17"] = dict(engine="wire", level="exploration", design_ref="5/C17",
+    technique="runtime monitoring at a loopback server (received parameters vs documented method/path/parameter table; "
+              "plain-notation regex + numeric equality for every decimal) and reference decoding of generated REST / "
+              "websocket payloads through the real wrapper classes",
+    text="Outbound: every order entry point with decimals of every exponent / normalisation form. Inbound: generated "
+         "payloads with arbitrary decimal strings, ms/us timestamps 2010-2100 at full resolution, every documented "
+         "status; wrapper attributes must equal exact references (Decimal(string), integer epoch arithmetic).",
+    note="Status sets are the classic documented ones; default-valued options are not 'unset'. " + COMMON_NOTE)
+
 NOT_YET = {}
 
 
